@@ -3,6 +3,7 @@ package generator
 import (
 	"errors"
 	"fmt"
+	"math"
 	"slices"
 	"strings"
 
@@ -539,7 +540,7 @@ func (g *schemaGenerator) structFieldValidators(
 				})
 			}
 
-			if f.SchemaType.MultipleOf != nil && v.Type == float64Type {
+			if m := f.SchemaType.MultipleOf; m != nil && (v.Type == float64Type || *m != math.Trunc(*m)) {
 				g.output.file.Package.AddImport("math", "")
 			}
 		}
